@@ -2,6 +2,7 @@ package main
 
 import (
 	"go/token"
+	"go/types"
 	"strings"
 
 	"golang.org/x/tools/go/ssa"
@@ -597,4 +598,79 @@ func boolResultImplies(call *ssa.Call, pred func(ssa.Value) bool) bool {
 		}
 	}
 	return n > 0
+}
+
+// helperResult sees through a result-building helper (`return failedRun(err)`): when v is (a component of) the result
+// of a call to a repository function all of whose returns give, in that position, the same constant or the same
+// parameter, the value is that constant / the corresponding argument. Anything else is returned unchanged.
+func helperResult(v ssa.Value) ssa.Value {
+	for d := 0; d < 4; d++ {
+		var call *ssa.Call
+		idx := 0
+		switch x := v.(type) {
+		case *ssa.Extract:
+			cl, ok := x.Tuple.(*ssa.Call)
+			if !ok {
+				return v
+			}
+			call, idx = cl, x.Index
+		case *ssa.Call:
+			call = x
+		default:
+			return v
+		}
+		h := call.Common().StaticCallee()
+		if h == nil || !isRepoFn(h) || len(h.Blocks) == 0 {
+			return v
+		}
+		var same ssa.Value
+		okAll := true
+		for _, b := range h.Blocks {
+			if len(b.Instrs) == 0 {
+				continue
+			}
+			ret, isRet := b.Instrs[len(b.Instrs)-1].(*ssa.Return)
+			if !isRet {
+				continue
+			}
+			rs := retResults(ret)
+			if idx >= len(rs) {
+				okAll = false
+				break
+			}
+			r := rs[idx]
+			switch {
+			case same == nil:
+				same = r
+			case same == r:
+			default:
+				c1, ok1 := same.(*ssa.Const)
+				c2, ok2 := r.(*ssa.Const)
+				if !(ok1 && ok2 && c1.Value == c2.Value && types.Identical(c1.Type(), c2.Type())) {
+					okAll = false
+				}
+			}
+		}
+		if !okAll || same == nil {
+			return v
+		}
+		switch s := same.(type) {
+		case *ssa.Const:
+			return s
+		case *ssa.Parameter:
+			found := false
+			for i, p := range h.Params {
+				if p == s && i < len(call.Common().Args) {
+					v = call.Common().Args[i]
+					found = true
+				}
+			}
+			if !found {
+				return v
+			}
+		default:
+			return v
+		}
+	}
+	return v
 }
